@@ -276,6 +276,8 @@ class Requester(object):
             self.lines.append(httping.packHeader(u'Content-Length', str(len(body))))
 
         for name, value in self.headers.items():
+            if self.method == u"GET" and name.lower() == u'content-length':
+                value = len(body)  # body not sent on GET so neither is its length
             self.lines.append(httping.packHeader(name, value))
 
         self.lines.extend((b"", b""))
